@@ -14,7 +14,7 @@ import (
 )
 
 func init() {
-	register(&Prop{ID: "C17", N: 60000, Quick: 5000,
+	register(&Prop{ID: "C17", Witness: true, N: 60000, Quick: 5000,
 		Assume: []string{"matches are drawn from the pattern's language two ways: random derivations of the AST validated by stdlib \\A(?:p)\\z, and match texts stdlib finds in generated haystacks", "completeness (a complete literal is an entire match, nothing longer preferred) is judged only for patterns without look-around, whose handling the extractor leaves to its caller"},
 		Rule:   "case = pattern G(D,i) × 6 extractor limit settings from the grid MaxLiterals{1,2,3,8,64,256} × MaxLiteralLen{1,2,4,64} × MaxClassSize{1,3,10} × CrossProductLimit{1,10,250}; for every drawn match m: some prefix literal is a prefix of m, some suffix literal a suffix, some inner literal a substring (unless the sequence is empty or partial), also after Minimize/Dedup/KeepFirstBytes and for LongestCommonPrefix/Suffix; complete literals are full matches and stay the leftmost-first match under continuations; one evaluation = one (match, sequence) containment test; distinct_nontrivial = distinct (pattern, limits, match) triples checked against a non-empty sequence",
 		Triage: func(f *Failure) string {
